@@ -2,22 +2,41 @@
      syne_tune/optimizer/schedulers/multiobjective/non_dominated_priority.py
        pareto_efficient, nondominated_sort
    and of moasha.py  _Bracket.on_result / MOASHA.on_trial_result.
-   Objective values are exact rationals (the harness converts every float with
-   float.as_integer_ratio(); float comparisons are exact, so nothing is lost). *)
+   Objective values are exact rationals or +-infinity (the harness converts every finite
+   float with float.as_integer_ratio(); float comparisons are exact, so nothing is lost;
+   NaN is outside the model: it is not an ordered value). *)
 From Verif Require Import model.Base.
 
-Definition vec := list Q.
+(* Objective values: binary64 values other than NaN, i.e. exact rationals and the two
+   infinities (a diverged loss is reported as inf). IEEE comparisons: -inf <= everything
+   <= +inf, inf <= inf holds and inf < inf does not. *)
+Inductive xq := NInf | Fin (q : Q) | PInf.
+Definition xleb (a b : xq) : bool :=
+  match a, b with
+  | NInf, _ => true
+  | _, PInf => true
+  | Fin p, Fin q => Qleb p q
+  | _, _ => false
+  end.
+Definition xltb (a b : xq) : bool := negb (xleb b a).
+Definition xeqb (a b : xq) : bool := xleb a b && xleb b a.
+Definition xle (a b : xq) : Prop := xleb a b = true.
+Definition xlt (a b : xq) : Prop := xltb a b = true.
+Definition xzero : xq := Fin 0.
+
+Definition vec := list xq.
+Definition fins (l : list Q) : vec := map Fin l.
 
 (* np.all(a <= x) *)
 Fixpoint all_le (a x : vec) : bool :=
   match a, x with
-  | p :: a', q :: x' => Qleb p q && all_le a' x'
+  | p :: a', q :: x' => xleb p q && all_le a' x'
   | _, _ => true
   end.
 (* np.any(a < x) *)
 Fixpoint any_lt (a x : vec) : bool :=
   match a, x with
-  | p :: a', q :: x' => Qltb p q || any_lt a' x'
+  | p :: a', q :: x' => xltb p q || any_lt a' x'
   | _, _ => false
   end.
 (* "x is dominated by a": all costs of a equal or lower and one strictly lower *)
